@@ -30,7 +30,7 @@ type Exports struct {
 
 // StdImports are the packages generated code is known to import.
 var StdImports = []string{
-	"encoding/json", "fmt", "reflect", "regexp", "math", "errors", "strings", "time", "net/netip", "unicode/utf8", "math/big",
+	"encoding/json", "fmt", "reflect", "regexp", "math", "errors", "strings", "time", "net/netip", "unicode/utf8", "math/big", "net/url",
 	"gopkg.in/yaml.v3", "github.com/go-viper/mapstructure/v2", "github.com/atombender/go-jsonschema/pkg/types",
 }
 
